@@ -955,8 +955,8 @@ class Lib:
         if method == 'unwrap_or_default':
             if is_some:
                 return x
-            if 'default' in v.payload:
-                return v.payload['default']
+            if hasattr(v, 'default'):
+                return v.default
             raise Unsupported('unwrap_or_default on None', node)
         if method == 'ok_or_else':
             return ok(x) if is_some else err(I.call_value(args[0], [], node))
@@ -1651,7 +1651,8 @@ class Lib:
                 if I.branch(succ):
                     return some(0)
                 if I.branch(I.fresh('killed_by_signal')):
-                    return REnum('Option', 'None', {'default': 0})
+                    from .values import RNoneDefault
+                    return RNoneDefault(0)
                 code = I.fresh('exit_code', 'bv', 32)
                 I.pc.append(code != 0)
                 return some(code)
